@@ -39,6 +39,7 @@ pub struct TransformConfig { pub add_metadata: bool, pub debug: bool, pub add_au
 //@item src/events.rs :: struct InputList
 //@end
 //@expect src/events.rs :: impl InputList :: fn iter <<<self.events.iter()>>>
+//@expect src/events.rs :: impl InputList :: fn is_empty <<<self.events.is_empty()>>>
 //@item src/element.rs :: struct SvgElement
 //@end
 impl Clone for SvgElement { #[verifier::external_body] fn clone(&self) -> (r: Self) ensures r == *self { unimplemented!() } }
@@ -322,6 +323,9 @@ impl EventGen for Container {
 //@item src/transform.rs :: impl EventGen for Container :: fn generate_events
 //@ strlit "circle" "ellipse" "image" "line" "path" "polygon" "polyline" "rect" "use" "reuse"
 //@ replace[R-inline] <<<for e in inner_events.iter() {>>> => <<<for e in inner_events.events.iter() {>>>
+//@ replace[R-inline] <<<inner_events.is_empty()>>> => <<<(inner_events.events.len() == 0)>>>
+//@ before <<<let mut new_el = self.0.clone();\n                // Special case <svg> elements with an xmlns attribute>>>
+//@ | assert(!(graphics_name(self.0.name@) && inner_events.events@.len() == 0)); // a shape written with a start and an end tag and nothing between them is that shape, not a plain container @C11.container.empty_content_is_empty_element
 //@ replace[R-into] <<<return Ok((self.0.all_events(context).into(), None));>>> => <<<return Ok((OutputList::from_input(self.0.all_events(context)), None));>>>
 //@ replace[R-into] <<<                    new_el\n                        .attrs\n                        .insert("data-src-line", self.0.src_line.to_string());>>> => <<<                    new_el.attrs.insert("data-src-line", usize_to_string(self.0.src_line));>>>
 //@ replace[R-into] <<<events.push(OutputEvent::Start(new_el.clone()));>>> => <<<events.push(ev_start(new_el.clone()));>>>
